@@ -1,11 +1,13 @@
 import SedpackDriver.Util
 import SedpackDriver.Hash
+import SedpackDriver.Filler
 open Lean
 namespace Sedpack.Drv
 
 def dispatch (m : String) (j : Json) : Except String Json :=
   match m with
   | "hash" => hash j
+  | "fill" => fill j
   | _ => .error s!"unknown model {m}"
 
 end Sedpack.Drv
